@@ -62,6 +62,9 @@ def constraint_sets(spec, method):
     s3.append(Con('<=', nxt(x0 * pc) - x0, 5))
     if vcs:
         s3.append(Con('>=', nxt(vcs[0]) + x0, -5))
+    # the shifted operand is the only time-dependent ingredient
+    s3.append(Con('<=', nxt(x1), 4))
+    s3.append(Con('>=', prv(x0) * a, -6, include_last=False))
     if u is not None:
         s3.append(Con('<=<=', -1, 1, mid=nxt(u) - u))
     sets.append(s3)
@@ -125,12 +128,56 @@ def instances(tier, seed):
                     h = Hsym[n % len(Hsym)]
                 add(fam.with_horizon(s, h), Cfg(method, N=N, M=M, intg=intg or 'rk', grid=g, degree=degree, scheme=scheme))
                 n += 1
+    # seeded random constraint sets over random models (configuration side widened; values stay symbolic)
+    from .. import randspec
+    nrand = 8 if tier == 'quick' else 160
+    rr = random.Random(seed * 7919 + 404)
+    for ri in range(nrand):
+        method, intg = rr.choice([('MS', 'rk'), ('MS', 'rk'), ('SS', 'rk'), ('DC', None), ('DC', None), ('MS', 'expl_euler'), ('SS', 'expl_euler')])
+        if method == 'DC' and rr.random() < 0.4:
+            s = fam.random_dae(rr)
+        elif method != 'DC' and rr.random() < 0.2:
+            s = fam.random_diffeq(rr)
+            intg = 'rk'
+        else:
+            s = fam.random_ode(rr)
+        N = rr.choice([1, 2, 2, 3, 3, 4])
+        M = rr.choice([1, 1, 2, 2, 3]) if method != 'SS' else rr.choice([1, 2])
+        if method == 'SS':
+            N = min(N, 3)
+        s.cons = randspec.random_constraints(rr, s, method, M)
+        g = rr.choice(grids)
+        if g == 'fun':
+            g = fam.G_FUN(N)
+        h = rr.choice(H[1:])       # numeric t0 = 0 makes t-products vanish at the first node (decision-free instances)
+        degree, scheme = rr.choice([(2, 'radau'), (3, 'radau'), (2, 'legendre'), (1, 'radau'), (1, 'legendre'), (4, 'radau'), (3, 'legendre')])
+        if method == 'DC' and not fam.rational_tables(degree, scheme) and not fam.horizon_symbolic(h):
+            h = rr.choice(Hsym)
+        if not s.cons:
+            continue
+        add(fam.with_horizon(s, h), Cfg(method, N=N, M=M, intg=intg or 'rk', grid=g, degree=degree, scheme=scheme), soft=True, family='random')
     # a constraint that cannot be placed must be rejected, not ignored
     for method in ('MS', 'SS'):
         s = copy.deepcopy(fam.ode_core()[0])
         s.cons = [Con('<=', X(0), 3, grid='integrator_roots')]
         add(s, Cfg(method, N=2, M=1, intg='rk'), expect='reject-or-rows', may_raise=True)
     return items
+
+
+def tautology(ch, term):
+    """is `term <= 0` valid (for all values)?  decided by the solver"""
+    z3 = ch.z3
+    ch.s.push()
+    ch.s.add(emb(term) > 0)
+    ch.s.set('timeout', 3000)
+    try:
+        r = str(ch.s.check())
+    except z3.Z3Exception:
+        r = 'unknown'
+    ch.s.set('timeout', ch.timeout_ms)
+    ch.s.pop()
+    ch.stats['queries'] += 1
+    return r == 'unsat'
 
 
 def run(item):
@@ -160,10 +207,18 @@ def run(item):
     refa = multi(inst, ref_atoms)
     # constant-true reference atoms are dropped by rockit as well (no change of the feasible set)
     keep = []
+    z3 = inst.z3
     for j, (kind, term, label) in enumerate(refa['z']):
         if isinstance(term, RZ) and term.k is not None:
             if (kind == 'le' and term.k <= 0) or (kind == 'eq' and term.k == 0):
                 continue
+        else:
+            # identically true after cancellation (x - x, 0*x): no restriction of the feasible set either
+            st = z3.simplify(emb(term))
+            if z3.is_rational_value(st):
+                v = st.numerator_as_long() / st.denominator_as_long()
+                if (kind == 'le' and v <= 0) or (kind == 'eq' and v == 0):
+                    continue
         keep.append(j)
     refa = {d: [refa[d][j] for j in keep] for d in refa}
     impa = impl_atoms(inst)
@@ -177,6 +232,10 @@ def run(item):
     else:
         for j in un_ref:
             lab = refa['z'][j][2]
+            if refa['z'][j][0] == 'le' and tautology(ch, refa['z'][j][1]):
+                # e.g. x*x >= 0: CasADi folds the relation to `true` and rockit drops it; the feasible set is unchanged
+                ch.stats['tautologies_dropped'] = ch.stats.get('tautologies_dropped', 0) + 1
+                continue
             kind = 'missing-instance' if lab.startswith('con') else 'dyn-row-missing'
             what = lab.split('@')[-1].rstrip('0123456789.') if lab.startswith('con') else lab.split('[')[0]
             if lab.startswith('con') and '@node%d' % cfg.N in lab:
@@ -198,19 +257,21 @@ def run(item):
     if not mut and item.get('expect') is None and len(Ref(inst.traj(0)).constraint_atoms()) > 0:
         ch2 = Checker(inst, timeout_ms=5000)
 
-        def ref_twin(tr):
-            cs = Ref(tr).constraint_atoms()
-            return cs[:-1]
-        full = multi(inst, lambda tr: Ref(tr).constraint_atoms())
-        # twin: the complete multiset minus one instance must leave an unmatched NLP row
-        rt = {d: [refa[d][j] for j in range(len(refa[d])) if refa[d][j][2] != full[d][-1][2]] for d in refa}
-        _, _, un_i2 = ch2.match(rt, impa, far=False)
-        extra = [i for i in un_i2 if ch2._vars(impa['z'][i][1]) & mv]
-        if len(rt['z']) < len(refa['z']):
+        # twin: the complete multiset minus one (matched, model-restricting) constraint instance must leave an unmatched NLP row
+        cand = [(j, i) for j, i in pairs if refa['z'][j][2].startswith('con') and ch2._vars(impa['z'][i][1]) & mv]
+        if cand:
+            jdrop = cand[-1][0]
+            rt = {d: [refa[d][j] for j in range(len(refa[d])) if j != jdrop] for d in refa}
+            _, _, un_i2 = ch2.match(rt, impa, far=False)
+            extra = [i for i in un_i2 if ch2._vars(impa['z'][i][1]) & mv]
             if extra:
                 twins_ok += 1
-            else:
+            elif not ch2.inconclusive:
                 twins_bad += 1
+    if viol and item.get('family') == 'random' and getattr(inst.pool, 'tiny', 0.0):
+        # e.g. (t - DT) with t = DT up to rounding: CasADi keeps 1e-17 * f(x), the exact reference has 0
+        from ..sx2smt import Unsupported
+        raise Unsupported('random instance with a floating-point cancellation residue (%.1e) among the folded constants: comparison undecidable, IEEE rounding is outside the claim' % inst.pool.tiny)
     r = result(inst, ch, {'violations': viol, 'twins_ok': twins_ok, 'twins_bad': twins_bad,
                           'shape': '%s|%s|%s' % (cfg.tag(), spec.t0[0] + '/' + spec.T[0], repr(spec.cons)),
                           'sample': {'cfg': cfg.tag(), 'horizon': [spec.t0[0], spec.T[0]],
